@@ -68,7 +68,6 @@ inductive Op (α : Type) where
   | read (n : Nat)                        -- io_read(pair, &in_buf, n)
   | write (d : List α) (sparse : Bool)    -- io_write(pair, buf, |d|); sparse = a full all-zero buffer
   | fixPos (n : Nat)                      -- io_fix_src_pos(pair, n)
-  | init (r : InitRes)                    -- coder_init(); then `!user_abort`; then io_open_dest()
 
 inductive Target | src | dst | dir
 deriving DecidableEq, Repr
@@ -152,7 +151,9 @@ structure Cfg (α : Type) where
   srcSkip : Bool := false      -- io_open_src_real rejects the file after fstat (directory, links, setuid, ...)
   gidDiffers : Bool := false   -- dest_st.st_gid != src_st.st_gid
   outRegular : Bool := false   -- stdout is a regular file positioned at its end
-  ops : List (Op α)
+  pre : List (Op α) := []      -- requests before coder_init (decompression: the first io_read)
+  init : InitRes := .ok        -- result of coder_init()
+  ops : List (Op α)            -- requests of coder_normal / coder_passthru
   fin : Fin
   fault : Nat → Option Fault
   signalAt : Option Nat := none
@@ -165,6 +166,7 @@ structure St (α : Type) where
   trace : List Event := []     -- newest first
   fs : FS α := {}
   ops : List (Op α) := []
+  main : Bool := false         -- coder_init has been called (s.ops are requests of the coding loop)
   userAbort : Bool := false
   exitSt : Nat := 0
   success : Bool := false
@@ -219,28 +221,38 @@ def finish (c : Cfg α) (s : St α) : St α :=
 def openDestErr (c : Cfg α) (s : St α) : St α :=
   if s.dirOpen then { s with pc := .closeDirErr } else ioFail c s
 
-/-- run the coding loop up to its next system call -/
-def nextOps (c : Cfg α) : List (Op α) → St α → St α
+/-- run the coding loop (coder_normal / coder_passthru) up to its next system call -/
+def nextMain (c : Cfg α) : List (Op α) → St α → St α
   | [], s => finish c { s with ops := [] }
-  | .tick :: r, s => if s.userAbort then ioFail c s else nextOps c r s
-  | .read n :: r, s => if n = 0 then nextOps c r s else { s with ops := r, rdRem := n, pc := .read }
+  | .tick :: r, s => if s.userAbort then ioFail c s else nextMain c r s
+  | .read n :: r, s => if n = 0 then nextMain c r s else { s with ops := r, rdRem := n, pc := .read }
   | .write d sp :: r, s =>
-      if c.o.mode == .test then nextOps c r s
-      else if s.trySparse && sp then nextOps c r { s with pending := s.pending + d.length }
-      else if d.isEmpty then nextOps c r s
+      if c.o.mode == .test then nextMain c r s
+      else if s.trySparse && sp then nextMain c r { s with pending := s.pending + d.length }
+      else if d.isEmpty then nextMain c r s
       else if s.trySparse && decide (s.pending > 0) then { s with ops := r, wr := d, pc := .seekHole }
       else { s with ops := r, wr := d, pc := .write }
-  | .fixPos n :: r, s => if n = 0 then nextOps c r s else { s with ops := r, rdRem := n, pc := .fixPos }
-  | .init res :: r, s =>
-      if res == .error then ioFail c (msgError s)
-      else if s.userAbort then ioFail c s
-      else if c.o.mode == .test then nextOps c r s
-      else if c.o.destStdout then { s with ops := r, pc := .fstatDest }
-      else if c.o.syncEff then { s with ops := r, pc := .openDir }
-      else if c.o.force then { s with ops := r, pc := .unlinkForce }
-      else { s with ops := r, pc := .openDest }
+  | .fixPos n :: r, s => if n = 0 then nextMain c r s else { s with ops := r, rdRem := n, pc := .fixPos }
 
-def continueLoop (c : Cfg α) (s : St α) : St α := nextOps c s.ops s
+/-- coder_run after the first read: coder_init(), `!user_abort`, io_open_dest() -/
+def doInit (c : Cfg α) (s : St α) : St α :=
+  let s := { s with main := true, ops := c.ops }
+  if c.init == .error then ioFail c (msgError s)
+  else if s.userAbort then ioFail c s
+  else if c.o.mode == .test then nextMain c c.ops s
+  else if c.o.destStdout then { s with pc := .fstatDest }
+  else if c.o.syncEff then { s with pc := .openDir }
+  else if c.o.force then { s with pc := .unlinkForce }
+  else { s with pc := .openDest }
+
+/-- requests made before coder_init (no target exists yet; nothing is written) -/
+def nextPre (c : Cfg α) : List (Op α) → St α → St α
+  | [], s => doInit c s
+  | .read n :: r, s => if n = 0 then nextPre c r s else { s with ops := r, rdRem := n, pc := .read }
+  | _ :: r, s => nextPre c r s
+
+def continueLoop (c : Cfg α) (s : St α) : St α :=
+  if s.main then nextMain c s.ops s else nextPre c s.ops s
 
 /-- the write currently in progress is the one-byte tail of io_close (ops are exhausted and success is set) -/
 def afterWrite (c : Cfg α) (s : St α) : St α :=
@@ -250,7 +262,7 @@ def afterWrite (c : Cfg α) (s : St α) : St α :=
 def appendData (c : Cfg α) (s : St α) (d : List α) : St α :=
   if s.destOpen then
     { s with fs := { s.fs with own := d :: List.replicate s.hole c.zero :: s.fs.own, ownSynced := false }, hole := 0 }
-  else { s with fs := { s.fs with out := d :: s.fs.out } }
+  else { s with fs := { s.fs with out := d :: List.replicate s.hole c.zero :: s.fs.out }, hole := 0 }
 
 /-- pre-actions of the k-th call: another process replaces a name; a signal arrives -/
 def preActions (c : Cfg α) (s : St α) : St α :=
@@ -451,7 +463,7 @@ def runN (c : Cfg α) : Nat → St α → St α
 /-- coder_run(): state before the first system call of a file. `k0`, `abort0`, `exit0` are inherited from the files
     processed before (main.c loops while `!user_abort`). -/
 def start (c : Cfg α) (dstExists : Bool) (k0 : Nat := 0) (exit0 : Nat := 0) : St α :=
-  let s : St α := { pc := .openSrc, k := k0, exitSt := exit0, ops := c.ops,
+  let s : St α := { pc := .openSrc, k := k0, exitSt := exit0, ops := c.pre,
                     fs := { dstName := if dstExists then some inoPre else none } }
   if c.o.stdin then continueLoop c { s with srcStIno := 0 } else s
 
